@@ -7,7 +7,7 @@ OUT=/verif/seeded/$ID
 mkdir -p $OUT
 cp $WT/seeded.patch $OUT/patch.diff
 cp $WT/tests/seeded_demo.rs $OUT/seeded_demo.rs
-CHECKS="$@"; [ -z "$CHECKS" ] && CHECKS=${ID%[bc]}
+CHECKS="$@"; [ -z "$CHECKS" ] && CHECKS=$(echo $ID | cut -c1-3)
 cd /verif
 git -C /repo apply $OUT/patch.diff || { echo "SEEDCHECK $ID patch-does-not-apply-to-repo"; exit 2; }
 for c in $CHECKS; do
